@@ -27,19 +27,21 @@ def base_program():
                   mkfunc("r", calls=[call("r")], rich=False),
                   mkfunc("p", calls=[call("q")], rich=False), mkfunc("q", calls=[call("p")], rich=False),
                   # w declares its dependency (dependencies=[g2]); the module name g2 is later re-bound to g3 and back
-                  mkfunc("g2", rich=False), mkfunc("g3", rich=False), dict(mkfunc("w", calls=[call("g2")], rich=False), deps=["g2"])],
+                  mkfunc("g2", rich=False), mkfunc("g3", rich=False), dict(mkfunc("w", calls=[call("g2")], rich=False), deps=["g2"]),
+                  # n is declared with auto_dependencies=False: what it reads and calls is not part of its version
+                  dict(mkfunc("n", calls=[call("h")], reads=["GV"], rich=False), no_auto=True)],
         "stmts": {"@keep": "g2_orig = g2", "@bind_t": "g2 = g2_orig"},
         "vars": {"G": 5, "GL": [1, 2], "HV": 1, "GV": 1},
         "classes": {"C1": {"X": 10}, "C2": {"X": 20}},
         "bindings": {"cfg": "C1"},
-        "order": ["f", "g", "h", "k", "r", "p", "q", "abs", "g2", "g3", "@keep", "@bind_t", "w"],
+        "order": ["f", "g", "h", "k", "r", "p", "q", "abs", "g2", "g3", "@keep", "@bind_t", "w", "n"],
         "late": ["k"],
     }
 
 
-QUERIED = ("f", "g", "r", "p", "q", "w")
+QUERIED = ("f", "g", "r", "p", "q", "w", "n")
 EVENTS = ["redef_f", "redef_g", "redef_h", "redef_r", "redef_q", "redef_h_default", "redef_h_kwdefault", "rebind_G", "rebind_HV", "rebind_GV", "mutate_GL", "def_k_helper", "def_k_var", "def_abs_helper", "rebind_t", "toggle_g_kind",
-          "rebind_cfg", "def_attr_Z", "clone_f", "wrap_f", "query_f", "query_g"]
+          "rebind_cfg", "def_attr_Z", "clone_f", "clone_n", "wrap_f", "query_f", "query_g"]
 
 
 def apply_to_ast(P, ev):
@@ -110,7 +112,7 @@ def apply_live(P, Q, ev, mods, root, objs):
     if ev == "rebind_t":
         setattr(a, "g2", getattr(a, Q["stmts"]["@bind_t"].split("= ")[1]))
         return None
-    if ev in ("clone_f", "wrap_f", "query_f", "query_g"):
+    if ev in ("clone_f", "clone_n", "wrap_f", "query_f", "query_g"):
         import twosigma.memento as m
 
         try:
@@ -118,6 +120,10 @@ def apply_live(P, Q, ev, mods, root, objs):
                 o = a.f.force_local()
                 objs.append(("clone", o, objs_epoch(objs)))
                 return ("f", o.version())
+            if ev == "clone_n":
+                o = a.n.partial()
+                objs.append(("clone-of-n", o, None))
+                return ("n", o.version())
             if ev == "wrap_f":
                 o = m.MementoFunction(a.f.fn, register_fn=False)
                 objs.append(("wrapper", o, objs_epoch(objs)))
@@ -125,7 +131,7 @@ def apply_live(P, Q, ev, mods, root, objs):
             n = ev[-1]
             return (n, getattr(a, n).version())
         except Exception as e:
-            return (ev[-1] if ev.startswith("query") else "f", "EXC:%s:%s" % (type(e).__name__, str(e)[:80]))
+            return (ev[-1] if ev.startswith("query") or ev == "clone_n" else "f", "EXC:%s:%s" % (type(e).__name__, str(e)[:80]))
     farm.apply_delta(P, Q, mods, root, False, "reexec")
     if ev == "redef_f":
         objs.append(("epoch", None, None))  # clones / wrappers made before now hold the old code
@@ -157,7 +163,7 @@ def internal_state(a, objs):
     return tuple(out)
 
 
-def _child(history, root):
+def _child(history, root, clones_first=False):
     import sys
     import importlib
 
@@ -177,19 +183,27 @@ def _child(history, root):
     canon = internal_state(a, objs)
     final = {}
     ep = objs_epoch(objs)
-    for name in QUERIED:
-        o = getattr(a, name, None)
-        if hasattr(o, "version"):
-            try:
-                final[name] = o.version()
-            except Exception as e:
-                final[name] = "EXC:%s:%s" % (type(e).__name__, str(e)[:80])
-    for i, (kind, o, e) in enumerate(objs):
-        if o is not None and e == ep:  # still wrapping the current code of f
-            try:
-                final["%s#%d" % (kind, i)] = o.version()
-            except Exception as ex:
-                final["%s#%d" % (kind, i)] = "EXC:%s:%s" % (type(ex).__name__, str(ex)[:80])
+
+    def ask_named():
+        for name in QUERIED:
+            o = getattr(a, name, None)
+            if hasattr(o, "version"):
+                try:
+                    final[name] = o.version()
+                except Exception as e:
+                    final[name] = "EXC:%s:%s" % (type(e).__name__, str(e)[:80])
+
+    def ask_objs():
+        for i, (kind, o, e) in enumerate(objs):
+            if o is not None and (e == ep or kind == "clone-of-n"):  # still wrapping the current code of f (n is never re-defined)
+                try:
+                    final["%s#%d" % (kind, i)] = o.version()
+                except Exception as ex:
+                    final["%s#%d" % (kind, i)] = "EXC:%s:%s" % (type(ex).__name__, str(ex)[:80])
+
+    # which object is asked first after the last event decides who re-computes and who takes the shortcut
+    for step in ((ask_objs, ask_named) if clones_first else (ask_named, ask_objs)):
+        step()
     return {"P": P, "canon": canon, "imm": imm, "final": final}
 
 
@@ -247,18 +261,27 @@ def expand(cfg, hist):
             except farm.ChildFailed as e:
                 raise HarnessError("live child failed for %s: %s" % (h, e))
             rm(os.path.join(top, "live"))
+            r2 = None
+            if any(e in ("clone_f", "clone_n", "wrap_f") for e in h):
+                try:
+                    r2 = farm.fork_call(_child, h, os.path.join(top, "live"), True)
+                except farm.ChildFailed as e:
+                    raise HarnessError("live child (clones first) failed for %s: %s" % (h, e))
+                rm(os.path.join(top, "live"))
             want = fresh_versions(r["P"], top)
             bad = None
             if r["imm"] is not None:
                 n, v = r["imm"]
                 if v != want.get(n):
                     bad = ("%s-immediate" % ev, "%s gave %s, a fresh process computes %s for %s" % (ev, v, want.get(n), n))
-            if bad is None:
-                for name, v in sorted(r["final"].items()):
-                    w = want.get(name.split("#")[0] if "#" not in name else "f")
+            for rr, how in ((r, ""), (r2, "|clones-asked-first")):
+                if bad is not None or rr is None:
+                    continue
+                for name, v in sorted(rr["final"].items()):
+                    w = want.get(name.split("#")[0] if "#" not in name else ("n" if name.startswith("clone-of-n") else "f"))
                     if v != w:
                         what = "raises" if str(v).startswith("EXC") else "stale-or-wrong"
-                        bad = ("%s|%s" % (name.split("#")[0], what), "version() of %s is %s, a fresh process computes %s" % (name, v, w))
+                        bad = ("%s|%s%s" % (name.split("#")[0], what, how), "version() of %s is %s, a fresh process computes %s%s" % (name, v, w, how.replace("|", " ; ")))
                         break
             if bad:
                 prev = hist[-1] if hist else "init"
